@@ -60,9 +60,11 @@ class AeadLog:
         last = {}
         accepted = {}
         index = {}
-        for k, n, ct, ok in self.dec:
+        for entry, (k, n, ct, ok) in enumerate(self.dec):
             if not ok:
                 continue
+            if getattr(R, "wants_entry", False):
+                R.entry = entry
             order = genuine.get(k, [])
             pos = index.get(k)
             if pos is None:
